@@ -134,6 +134,8 @@ def generate(rng, tier):
     solver = rng.choice(COMBINATORIAL * 3 + CONTINUOUS_A * 2 + GROUP_B)
     case = {"solver": solver, "minimize": rng.random() < 0.5}
     mi_pool = [0, 1, 2, 3, 5, 8, 13, 30, 60] + ([150, 300] if big else [])
+    if rng.random() < 0.04:
+        mi_pool = [400, 1000, 2500]  # long runs: segment updates, stagnation counters, cooling floors, many restarts of inner loops
     p: dict = {}
     if solver in COMBINATORIAL:
         land = gen_table(rng, big)
